@@ -489,7 +489,7 @@ func ruleACCEPT(c *Ctx, r *Report) {
 	if pr == nil {
 		return
 	}
-	paths, complete := c.enumPaths(pr.ParseLoop, 5000)
+	paths, complete := c.enumPathsTail(pr.ParseLoop, 5000)
 	if !complete {
 		r.bad(rule, "paths", "-", "too many paths in the parse loop")
 		return
@@ -542,7 +542,7 @@ func ruleDFACCEPT(c *Ctx, r *Report) {
 	if pr == nil {
 		return
 	}
-	paths, _ := c.enumPaths(pr.ParseLoop, 5000)
+	paths, _ := c.enumPathsTail(pr.ParseLoop, 5000)
 	ops := c.operatorConsts()
 	wraps := false
 	var badPos string
